@@ -65,7 +65,16 @@ Tok == <<
     <<27,93,56,59>>,                \* 33  ESC]8;
     <<27,92>>,                      \* 34  ESC backslash (string terminator)
     <<53>>,                         \* 35  5
-    <<50>>                          \* 36  2
+    <<50>>,                         \* 36  2
+    <<45>>,                         \* 37  -     (a sign: no parser accepts it, int() would)
+    <<46>>,                         \* 38  .
+    <<58>>,                         \* 39  :     (emoji code delimiter; SGR sub-parameter separator)
+    <<27>>,                         \* 40  ESC alone
+    <<52,56>>,                      \* 41  48    (SGR background introducer)
+    <<7>>,                          \* 42  BEL   (the other OSC terminator)
+    <<48>>,                         \* 43  0
+    <<65>>,                         \* 44  A     (upper case: a CSI final byte that is not m; an upper-case hex digit)
+    <<115,109,105,108,101>>         \* 45  smile (an emoji name)
 >>
 NTok == Len(Tok)
 \* the empty fragment of the quantifier is the empty token sequence
@@ -77,10 +86,10 @@ Entries == {"color", "style", "get", "getd", "markup", "printm", "decode", "text
 
 \* alphabets of syntax-significant fragments per entry point
 Alphabet(e) ==
-    CASE e = "color"  -> {1, 2, 3, 4, 5, 6, 7, 8, 9, 10, 11, 12, 13, 14, 29, 30}
-      [] e \in {"style", "get", "getd"} -> {15, 16, 17, 18, 19, 20, 13, 31, 1, 2, 3, 4, 29, 30}
-      [] e \in {"markup", "printm"} -> {21, 22, 23, 24, 25, 18, 19, 13, 31, 17, 29, 30, 1, 2, 3}
-      [] e = "decode" -> {26, 27, 28, 4, 36, 35, 32, 7, 8, 31, 29, 30, 33, 34}
+    CASE e = "color"  -> {1, 2, 3, 4, 5, 6, 7, 8, 9, 10, 11, 12, 13, 14, 29, 30, 37}
+      [] e \in {"style", "get", "getd"} -> {15, 16, 17, 18, 19, 20, 13, 31, 1, 2, 3, 4, 29, 30, 9, 10}
+      [] e \in {"markup", "printm"} -> {21, 22, 23, 24, 25, 18, 19, 13, 31, 17, 29, 30, 1, 2, 3, 39, 45}
+      [] e = "decode" -> {26, 27, 28, 4, 36, 35, 32, 7, 8, 31, 29, 30, 33, 34, 39, 40, 41, 42, 43, 44}
       [] e \in {"text", "print"} -> 1..NTok
 
 \* contexts <<prefix, suffix>> (token sequences) put around an enumerated sequence so that bounded
